@@ -83,8 +83,11 @@ class Report:
             if len(self.violations) >= MAX_VIOLATION_CLASSES:
                 self.counters['violations_beyond_cap'] += 1
                 return 'violation'
-            self.violations[cls] = {'summary': summary,
-                                    'payload': jsonable(payload), 'count': 1}
+            pl = jsonable(payload)
+            cur = getattr(self, 'current_case', None)
+            if cur is not None and isinstance(pl, dict):
+                pl['_engine_c'] = list(cur)
+            self.violations[cls] = {'summary': summary, 'payload': pl, 'count': 1}
         else:
             v['count'] += 1
         return 'violation'
